@@ -51,6 +51,7 @@ type verifEnv interface {
 	setDir(sh verifShape)
 	apply(txMode string, dryRun bool, count int, baseline string) error
 	snapshot() verifSnapshot
+	setCrash(at int) // the process dies at store event `at` (-1: never)
 	close()
 }
 
@@ -84,7 +85,7 @@ func (e *verifModelEnv) setDir(sh verifShape) {
 
 func (e *verifModelEnv) apply(txMode string, dryRun bool, count int, baseline string) error {
 	w := e.w
-	w.ops, w.crashed = 0, false
+	w.ops = 0
 	ctx := context.WithValue(context.Background(), verifWorldKey{}, w)
 	cmd := &cobra.Command{}
 	cmd.SetContext(ctx)
@@ -106,10 +107,28 @@ func (e *verifModelEnv) snapshot() verifSnapshot {
 
 func (e *verifModelEnv) close() {}
 
+func (e *verifModelEnv) setCrash(at int) {
+	e.w.crashAt = at
+	if at < 0 {
+		// the process is gone: whatever transaction was open is rolled back
+		e.w.tx = nil
+		e.w.crashed = false
+	}
+}
+
 // ---- native environment: real command, real SQLite file ----
 
 type verifNativeEnv struct {
 	root, dbPath, dirPath string
+	crash                 bool
+}
+
+func (e *verifNativeEnv) setCrash(at int) {
+	verifRegisterCrashDriver()
+	verifCrashCtl.Lock()
+	verifCrashCtl.at, verifCrashCtl.n, verifCrashCtl.dead, verifCrashCtl.armed = at, 0, false, false
+	verifCrashCtl.Unlock()
+	e.crash = at >= 0
 }
 
 func verifNewNativeEnv() *verifNativeEnv {
@@ -159,7 +178,11 @@ func (e *verifNativeEnv) setDir(sh verifShape) {
 
 func (e *verifNativeEnv) apply(txMode string, dryRun bool, count int, baseline string) error {
 	cmd := migrateApplyCmd()
-	args := []string{"--dir", "file://" + e.dirPath, "--url", "sqlite://" + e.dbPath + "?_fk=1", "--tx-mode", txMode}
+	scheme := "sqlite"
+	if e.crash {
+		scheme = "verifcrash"
+	}
+	args := []string{"--dir", "file://" + e.dirPath, "--url", scheme + "://" + e.dbPath + "?_fk=1", "--tx-mode", txMode}
 	if baseline != "" {
 		args = append(args, "--baseline", baseline)
 	} else {
